@@ -715,6 +715,154 @@ fn leak_max(k: &str) -> &'static str {
     }
 }
 
+// ------------------------------------------------------------------ a member restarted under a new generation
+
+/// A crashed and came back with the same node id and address and a higher generation; B still
+/// advertises the old incarnation. On the restarted node the old incarnation is an ordinary other
+/// member: classified at every evaluation, removed after the grace period.
+pub fn restart_part(tier: Tier) -> Part {
+    let depth = tier.pick(5usize, 7usize);
+    let mut part = Part::new(&format!("membership/restarted-under-a-new-generation(depth<={depth})"));
+    part.rule = format!("two real nodes A#1 and B gossip until live for each other; A crashes and restarts as A#2 (same node id and address, generation 2), B still knows A#1; every sequence of length <= {depth} over {{handshake B->A#2, A#2->B, evaluate A#2, evaluate B, tick 5s, tick 11s}}; oracle after every evaluation of A#2 (and of B): live and dead disjoint, the node itself live, every other known member — the node's own former incarnation included — in exactly one of the two sets; a member dead at every evaluation for the full grace period (20 s) is gone after the next evaluation; non-trivial = sequences in which A#2 knows A#1");
+    #[derive(Clone, Copy, Debug, PartialEq)]
+    enum E {
+        HsBA,
+        HsAB,
+        EvalA,
+        EvalB,
+        Tick5,
+        Tick11,
+    }
+    let alpha = [E::HsBA, E::HsAB, E::EvalA, E::EvalB, E::Tick5, E::Tick11];
+    let mut seqs: Vec<Vec<E>> = vec![vec![]];
+    let mut layer: Vec<Vec<E>> = vec![vec![]];
+    for _ in 0..depth {
+        let mut next = vec![];
+        for q in &layer {
+            for e in alpha {
+                let mut q2 = q.clone();
+                q2.push(e);
+                next.push(q2);
+            }
+        }
+        seqs.extend(next.iter().cloned());
+        layer = next;
+    }
+    let seqs: Vec<Vec<E>> = seqs.into_iter().filter(|q| q.len() == depth).collect();
+    fn hs(from: &mut Node, to: &mut Node) {
+        chitchat::verif::arm_choices(vec![]);
+        from.cc.verif_update_self_heartbeat();
+        let syn = from.cc.verif_create_syn_message();
+        if let Some(synack) = to.cc.verif_process_message(syn) {
+            if let Some(ack) = from.cc.verif_process_message(synack) {
+                to.cc.verif_process_message(ack);
+            }
+        }
+        chitchat::verif::disarm_choices();
+    }
+    let results: Vec<(Tally, Option<(String, String, Vec<E>)>)> = seqs
+        .par_iter()
+        .map(|seq| {
+            let mut t = Tally::default();
+            t.inc("sequences");
+            let opts = NodeOpts { fd: fd_cfg(), ..Default::default() };
+            let mut a1 = Node::new(&Id::v4("A", 1, 10_001), &opts);
+            let mut b = Node::new(&Id::v4("B", 1, 10_002), &opts);
+            for _ in 0..4 {
+                hs(&mut a1, &mut b);
+                hs(&mut b, &mut a1);
+                crate::clock::advance(Duration::from_secs(1));
+                a1.cc.verif_update_nodes_liveness();
+                b.cc.verif_update_nodes_liveness();
+            }
+            drop(a1);
+            let mut a2 = Node::new(&Id::v4("A", 2, 10_001), &opts);
+            let mut now = 0u64;
+            // per node (0 = A#2, 1 = B): member -> time since which it was dead at every evaluation
+            let mut dead_since: [BTreeMap<Id, u64>; 2] = [BTreeMap::new(), BTreeMap::new()];
+            let mut knew_old = false;
+            let r = guarded(|| -> Option<(String, String)> {
+                for e in seq {
+                    match e {
+                        E::HsBA => hs(&mut b, &mut a2),
+                        E::HsAB => hs(&mut a2, &mut b),
+                        E::Tick5 => {
+                            crate::clock::advance(Duration::from_secs(5));
+                            now += 5_000;
+                        }
+                        E::Tick11 => {
+                            crate::clock::advance(Duration::from_secs(11));
+                            now += 11_000;
+                        }
+                        E::EvalA | E::EvalB => {
+                            let (i, n, name) = if *e == E::EvalA { (0usize, &mut a2, "A#2") } else { (1usize, &mut b, "B") };
+                            let due: Vec<Id> = dead_since[i].iter().filter(|(_, t)| now - **t >= GRACE_MS).map(|(m, _)| m.clone()).collect();
+                            n.cc.verif_update_nodes_liveness();
+                            let me = n.real_id.clone();
+                            let live: Vec<Id> = n.cc.live_nodes().map(real::from_real_id).collect();
+                            let dead: Vec<Id> = n.cc.dead_nodes().map(real::from_real_id).collect();
+                            if live.iter().any(|l| dead.contains(l)) {
+                                return Some((format!("{name}: a member is both live and dead"), "live-dead-overlap".into()));
+                            }
+                            if !live.contains(&real::from_real_id(&me)) {
+                                return Some((format!("{name}: the node itself is not live"), "self-not-live".into()));
+                            }
+                            let members: Vec<Id> = n.cc.node_states().keys().filter(|k| **k != me).map(real::from_real_id).collect();
+                            for m in &members {
+                                if live.contains(m) == dead.contains(m) {
+                                    return Some((format!("{name}: known member {}#{} is in neither the live nor the dead set after an evaluation", m.node_id, m.generation), "unclassified".into()));
+                                }
+                            }
+                            for m in &due {
+                                if members.contains(m) {
+                                    return Some((format!("{name}: {}#{} was dead at every evaluation for {} ms (>= grace) and is still present after the evaluation", m.node_id, m.generation, now - dead_since[i][m]), "not-removed-after-grace".into()));
+                                }
+                            }
+                            let mut next = BTreeMap::new();
+                            for m in &dead {
+                                if members.contains(m) {
+                                    next.insert(m.clone(), dead_since[i].get(m).copied().unwrap_or(now));
+                                }
+                            }
+                            dead_since[i] = next;
+                            if i == 0 && members.iter().any(|m| m.node_id == "A" && m.generation == 1) {
+                                knew_old = true;
+                            }
+                        }
+                    }
+                }
+                None
+            });
+            if knew_old {
+                t.inc("sequences_in_which_the_restarted_node_knows_its_former_incarnation");
+            }
+            match r {
+                Ok(None) => (t, None),
+                Ok(Some((what, sig))) => (t, Some((what, sig, seq.clone()))),
+                Err(p) => (t, Some((format!("panic: {p}"), format!("panic:{}", short_loc(&p)), seq.clone()))),
+            }
+        })
+        .collect();
+    let mut viols = vec![];
+    for (t, v) in results {
+        part.tally.merge(&t);
+        if let Some(x) = v {
+            viols.push(x);
+        }
+    }
+    viols.sort_by_key(|(_, _, q)| q.iter().position(|e| matches!(e, E::EvalA | E::EvalB)).unwrap_or(99));
+    for (what, sig, q) in viols.into_iter().take(20) {
+        part.violation("C12", format!("{what} [after the restart: {q:?}]"), sig, json!({"root":"restart","actions": q.iter().map(|e| format!("{e:?}")).collect::<Vec<_>>()}));
+    }
+    part.states = part.tally.get("sequences");
+    part.transitions = part.tally.get("sequences") * depth as u64;
+    part.executions = part.tally.get("sequences");
+    part.distinct_nontrivial = part.tally.get("sequences_in_which_the_restarted_node_knows_its_former_incarnation");
+    part.sample(json!(["HsBA", "EvalA", "Tick11", "EvalA", "Tick11"]));
+    part.require("sequences_in_which_the_restarted_node_knows_its_former_incarnation");
+    part
+}
+
 /// The removed-member memory holds 500 entries: walk 500 members through removal on one node and
 /// re-advertise the first and the last with their old heartbeat.
 pub fn lru_walk() -> Part {
@@ -790,6 +938,7 @@ pub fn run(property: &'static str, tier: Tier, started: Instant) -> Vec<Part> {
     }
     if property == "C12" {
         parts.push(lru_walk());
+        parts.push(restart_part(tier));
     }
     if property == "C13" {
         // the same oracle when nobody keeps a receiver between evaluations (the value is read on demand)
@@ -802,6 +951,13 @@ pub fn run(property: &'static str, tier: Tier, started: Instant) -> Vec<Part> {
 }
 
 pub fn replay(v: &Value) -> Result<(), String> {
+    if v["root"].as_str() == Some("restart") {
+        let p = restart_part(Tier::Quick);
+        return match p.violations.first() {
+            Some(x) => Err(x.what.clone()),
+            None => Ok(()),
+        };
+    }
     if v["root"].as_str() == Some("lru") {
         let p = lru_walk();
         return match p.violations.first() {
